@@ -195,7 +195,7 @@ def check_fresh_processes(case) -> Outcome:
 
 @st.composite
 def inprocess_cases(draw):
-    c = draw(lang_and_model({'max_assets': 4, 'max_expr_depth': 2},
+    c = draw(lang_and_model({'max_assets': 5, 'max_expr_depth': 2, 'deep_chains': draw(st.booleans())},
                             {'max_assets': 5, 'attackers': True, 'explicit_ids': True, 'min_assets': 1}))
     c['fmt'] = draw(st.integers(0, 1))
     return c
@@ -210,7 +210,7 @@ def batches(draw):
 
 CLAUSES = [
     Clause('same-process-and-wrappers', check_inprocess, kind='random', strategy=inprocess_cases,
-           budget={'quick': 1000, 'thorough': 8000}),
+           budget={'quick': 1600, 'thorough': 10000}),
     Clause('fresh-processes-hash-seeds', check_fresh_processes, kind='random', strategy=batches,
            budget={'quick': 96, 'thorough': 960}),
 ]
